@@ -60,4 +60,69 @@ def pred(line, out):
     return f"seqnr_pred {t[1]} {t[2]} {t[3]} {out}"
 
 
-COMPONENTS = [{"name": "seqnr", "gen": gen, "nontrivial": nontrivial, "classify": classify, "pred": pred}]
+# ---------------------------------------------------------------- trace shift (connection level)
+# Metamorphic: the SAME scenario is run twice on the real VirtualSocket, the second time with our initial
+# sequence number, the peer's and the connection id relabelled (and every message the peer sends relabelled
+# accordingly) so that the 16-bit wrap falls inside the transfer; the extracted predicate c09_shift_ok
+# (Conn/C09_Pred.v) requires the second trace to be the first one relabelled, field by field (packets, state
+# fingerprint, results, wake-ups, timers).  Claimed within the tolerance guard c09_within_tol only (SKIP
+# otherwise): beyond WRAP_TOLERANCE the distance function is not shift invariant (finding D4).
+import hashlib
+import checklib as L
+from . import vsock_common, vsockgen, c05, c17
+
+
+def _twin(line):
+    t = line.split()
+    isn, rseq, rconn = int(t[12]), int(t[13]), int(t[14])
+    h = int(hashlib.sha1(line.encode()).hexdigest()[:8], 16)
+    # land both numbering spaces a few packets before the wrap (or shift a wrapping run away from it)
+    new_isn = (65536 - 1 - h % 7) % 65536
+    new_rseq = (65536 - 1 - (h // 7) % 5) % 65536
+    if isn >= 65500:
+        new_isn = 100 + h % 1000
+    if rseq >= 65500:
+        new_rseq = 1 + (h // 7) % 1000
+    da, db, dc = (new_isn - isn) % 65536, (new_rseq - rseq) % 65536, (h // 35) % 65536
+    t2 = list(t)
+    t2[12], t2[13], t2[14] = str(new_isn), str(new_rseq), str((rconn + dc) % 65536)
+    for i in range(18, len(t2)):
+        if t2[i].startswith("M"):
+            f = t2[i][1:].split(",")
+            f[1] = str((int(f[1]) + db) % 65536)
+            f[2] = str((int(f[2]) + da) % 65536)
+            t2[i] = "M" + ",".join(f)
+    return " ".join(t2), da, db, dc
+
+
+def _shift_line(line, out, line2, out2, da, db, dc):
+    if "BAD" in out or "BAD" in out2:
+        return None
+    return "vsock_shift %d %d %d 1024 %s | %s | %s | %s" % (
+        da, db, dc, " ".join(line.split()[1:]), out, " ".join(line2.split()[1:]), out2)
+
+
+def shift_pred(line, out):
+    line2, da, db, dc = _twin(line)
+    out2 = L.run_lines(L.HARNESS, [line2])[0]
+    return _shift_line(line, out, line2, out2, da, db, dc)
+
+
+def shift_preds_all(lines, impl):
+    twins = [_twin(l) for l in lines]
+    outs2 = L.run_sharded(L.HARNESS, [t[0] for t in twins])
+    return [_shift_line(l, o, t[0], o2, t[1], t[2], t[3]) for l, o, t, o2 in zip(lines, impl, twins, outs2)]
+
+
+def shift_gen(rng, tier):
+    n = 150 if tier == "quick" else 3000
+    lines = vsockgen.gen_closed(rng.fork("closed"), lambda ls: L.run_sharded(L.HARNESS, ls), n)
+    lines += c05.gen_targeted(rng.fork("targeted"), n)
+    lines += c17.gen(rng.fork("c17"), "quick")[:n] if tier == "quick" else c17.gen(rng.fork("c17"), tier)
+    return lines
+
+
+COMPONENTS = [{"name": "seqnr", "gen": gen, "nontrivial": nontrivial, "classify": classify, "pred": pred},
+              {"name": "vsock_shift", "keep": vsock_common.KEEP, "gen": shift_gen,
+               "nontrivial": vsock_common.nontrivial, "classify": vsock_common.classify,
+               "pred": shift_pred, "preds_all": shift_preds_all}]
